@@ -115,9 +115,14 @@ def rule_O(FA):
     out = []
     for f in FA.lib_fns(include_closures=False):
         base = f.get('_base', '')
-        if base not in PUBLIC_BASES or f['unsafe'] or not f['exported']:
+        if base not in PUBLIC_BASES or not f['exported']:
             continue
-        props = PUBLIC_BASES[base]
+        # unchecked twins are entry points too: their documented precondition bounds the arguments from
+        # above (index / prefix / occurrence), never from below, so only `argument - k` is judged there
+        unchecked_entry = f['unsafe']
+        if unchecked_entry and not f['name'].endswith('_unchecked'):
+            continue
+        props = PUBLIC_BASES[base] + (['C10'] if unchecked_entry else [])
         seeds = [i for i in range(2, f['argc'] + 1) if f['locals'][i] in INT]
         if not seeds:
             continue
@@ -128,8 +133,8 @@ def rule_O(FA):
             sites = []
             bad = []
 
-            def scan(g, gspec, seed_locals, pname, sanitized_up, chain, depth, seen):
-                key = (g['path'], tuple(sorted(seed_locals)), sanitized_up)
+            def scan(g, gspec, seed_locals, pname, sanitized_up, sanitized_low, chain, depth, seen):
+                key = (g['path'], tuple(sorted(seed_locals)), sanitized_up, sanitized_low)
                 if key in seen or depth > 3:
                     return
                 seen.add(key)
@@ -158,6 +163,9 @@ def rule_O(FA):
                         elif op == 'SubWithOverflow':
                             # p - k underflows for small p; x - p underflows for large p
                             if la and 'c' in rv['b']:
+                                # only the argument itself (not a value derived from it, e.g. `(1 << len) - 1`)
+                                if strip_casts(norm(G.operand_term(rv['a']))) not in Pterms:
+                                    continue
                                 need = 'below'
                             elif lb and not la:
                                 need = 'above'
@@ -167,8 +175,12 @@ def rule_O(FA):
                             if not lb:
                                 continue
                             need = 'above'
+                        if unchecked_entry and need == 'above':
+                            continue
                         atoms = path_atoms(G, bi)
-                        ok = sanitized_up or any((bounded_above if need == 'above' else bounded_below)(atoms, P) for P in Pterms)
+                        ok = (sanitized_up and need == 'above') or any((bounded_above if need == 'above' else bounded_below)(atoms, P) for P in Pterms)
+                        if need == 'below' and sanitized_up and not ok:
+                            ok = sanitized_low
                         desc = '%s %s %s' % (show(norm(G.operand_term(rv['a'])))[:40], op.replace('WithOverflow', ''), show(norm(G.operand_term(rv['b'])))[:40])
                         sites.append(desc)
                         if not ok:
@@ -183,6 +195,7 @@ def rule_O(FA):
                         continue
                     atoms = path_atoms(G, bi)
                     san = sanitized_up or any(bounded_above(atoms, P) for P in Pterms)
+                    sanl = sanitized_low or any(bounded_below(atoms, P) for P in Pterms)
                     for cal in FA.resolve(fn):
                         if cal['kind'] == 'Closure' or cal['name'] in EXEMPT:
                             continue
@@ -193,11 +206,17 @@ def rule_O(FA):
                         if not cseeds:
                             continue
                         cspec = {k: v for k, v in spec.items() if k in FA.const_params(cal)}
-                        scan(cal, cspec, cseeds, pname, san, chain + [cal['name']], depth + 1, seen)
+                        # an argument of the form `x + c` (c >= 1) cannot be below c in the callee
+                        low2 = sanl
+                        for ai in targs:
+                            at = norm(G.operand_term(t['args'][ai]))
+                            if at[0] == 'bin' and at[1] == 'Add' and (at[2][0] == 'const' and at[2][1] >= 1 or at[3][0] == 'const' and at[3][1] >= 1):
+                                low2 = True
+                        scan(cal, cspec, cseeds, pname, san, low2, chain + [cal['name']], depth + 1, seen)
 
             for l in seeds:
                 pname = f['names'].get(str(l), '_%d' % l)
-                scan(f, spec, [l], pname, False, [f['name']], 0, set())
+                scan(f, spec, [l], pname, False, False, [f['name']], 0, set())
             key = 'R-O|%s%s' % (fn_key(f), spec_key(spec))
             if bad:
                 seen_desc = set()
@@ -308,6 +327,23 @@ def rule_W(FA):
                                                 'result of generic type %s is rebuilt from a fixed-width %s accumulator: symbols wider than %s cannot be returned' % (
                                                     fn['gargs'][0], fn['gargs'][1], fn['gargs'][1]), props,
                                                 sample={'from': fn['gargs'][1], 'value': show(arg)[:80]}))
+                # w4: a fixed-size array indexed by the level counter must have room for every level of the widest element type
+                if t['k'] == 'assert' and 'bounds' in t.get('msg', {}) and in_tree:
+                    ln = t['msg']['len']
+                    ix = t['msg']['index']
+                    if 'c' in ln and ln.get('val') is not None and 'p' in ix:
+                        L = int(ln['val'])
+                        it = norm(F.operand_term(ix))
+                        levelish = any(isinstance(x, tuple) and x and ((x[0] == 'agg' and x[1].startswith('adt:std::ops::Range')) or x[0] == 'unknown') for x in subterms(it))
+                        masked = it[0] == 'bin' and it[1] == 'BitAnd'
+                        need = 128 if base == 'binwt::WaveletTree' else 64
+                        if levelish and not masked and L < need and it[0] != 'const':
+                            key = 'R-W|w4|%s%s' % (fn_key(f), spec_key(spec))
+                            if key not in seen:
+                                seen.add(key)
+                                out.append(Inst('R-W', key, 'violation', t['line'],
+                                                'fixed-size array of %d entries is indexed by a per-level counter `%s`: a tree over a %d-bit element type has up to %d levels' % (
+                                                    L, show(it)[:50], 128, need), props, sample={'array_len': L, 'index': show(it)[:80]}))
             if f['kind'] != 'Closure':
                 key0 = 'R-W|scan|%s%s' % (fn_key(f), spec_key(spec))
                 if not any(k.endswith('|%s%s' % (fn_key(f), spec_key(spec))) or k.endswith('|' + fn_key(f)) for k in seen):
